@@ -146,7 +146,8 @@ func (c *c07) Summary(w *sim.World) (string, []string) {
 }
 
 func genC07(t *rapid.T) *sim.GenSpec {
-	start := rapid.SampledFrom([]uint64{0, 0, 1, 1<<32 - 1, 1 << 32, 1 << 63, 1<<64 - 100, 1<<64 - 3, 1<<64 - 1}).Draw(t, "start")
+	start := rapid.SampledFrom([]uint64{0, 0, 1, 1<<32 - 1, 1 << 32, 1 << 63, 1<<64 - 100, 1<<64 - 3, 1<<64 - 1,
+		1<<7 - 1, 1 << 7, 1 << 14, 1 << 21, 1 << 28, 1 << 35, 1<<42 - 2, 1 << 42, 1<<45 + 99, 1<<49 - 2, 1 << 49, 1 << 56}).Draw(t, "start")
 	return sim.DrawGenesis(t, sim.GenOpts{StartNonce: &start, NoPause: true})
 }
 
